@@ -107,9 +107,11 @@ broadcast use crate::vspec_cfi::group_widen;''')
     ASZ = 'parameters.address_size'
     FMT = f'pe_format({E})'
     pev = cfi.item(r'^fn parse_encoded_value<').clean().own(OWN)
-    for ty in ['i16', 'i32', 'i64']:
-        annotate_closure(pev, f'input.read_{ty}().map(', 'a', ty, 'u64', 'r == a as u64')
-    annotate_closure(pev, 'input.read_sleb128().map(', 'a', 'i64', 'u64', 'r == a as u64')
+    # every `input.read_X().map(|a| a as u64)` closure gets its (otherwise implicit) type and postcondition; which reads
+    # there are is taken from the source, so that an edit of an arm is judged by the contract, not lost as an anchor
+    RTY = {'sleb128': 'i64', 'uleb128': 'u64'}
+    for m in re.finditer(r'input\.read_(\w+)\(\)\.map\(\|a\| a as u64\)', pev.text):
+        annotate_closure(pev, f'input.read_{m.group(1)}().map(', 'a', RTY.get(m.group(1), m.group(1)), 'u64', 'r == a as u64')
     pev.splice('parse_encoded_value', ret='res', canary=True,
                requires=[f'[C05:valid-enc] pe_valid({E}) && !pe_omit({E})'],
                ensures=[
